@@ -83,6 +83,11 @@ func (h *History) UnmarshalXML(d *xml.Decoder, start xml.StartElement) error {
 		}
 
 		switch tt := t.(type) {
+		case xml.StartElement:
+			// No child is defined: skip it entirely, so that none of its descendants is taken for our end tag.
+			if err := d.Skip(); err != nil {
+				return err
+			}
 		case xml.EndElement:
 			if tt == start.End() {
 				return nil
